@@ -53,6 +53,7 @@ inductive Expr where
   | taskv (t : String)                   -- Task object
   | partialv (t : String) (args : List Expr) (kwn : List String) (kwv : List Expr)  -- PartialTask (arguments NOT evaluated)
   | threadv (e : Expr)                   -- redun Thread holding its expression
+  | objv (cls : String) (args : List Expr)  -- instance of a plain user class (a leaf for `evaluate`); bound methods too
   | vexpr (v : Expr)                     -- ValueExpression(v)
   -- nested containers
   | cont (k : CKind) (items : List Expr)
@@ -157,7 +158,7 @@ def argDefaults (ps : List Param) (nargs : Nat) (kwn : List String) : List (Stri
 
 def isLeaf : Expr → Bool
   | .none | .bool _ | .int _ | .str _ | .errv _ | .cls _ | .pyfunc _ | .taskv _
-  | .partialv _ _ _ _ | .threadv _ => true
+  | .partialv _ _ _ _ | .threadv _ | .objv _ _ => true
   | _ => false
 
 mutual
@@ -187,7 +188,7 @@ mutual
   /-- concrete values: what an evaluation returns; evaluating one again returns it unchanged -/
   def isValue : Expr → Bool
     | .none | .bool _ | .int _ | .str _ | .errv _ | .cls _ | .pyfunc _ | .taskv _
-    | .partialv _ _ _ _ | .threadv _ => true
+    | .partialv _ _ _ _ | .threadv _ | .objv _ _ => true
     | .cont k items => allValues items && contOk k items
     | .dict ks vs => allValues ks && allValues vs && keysOk ks
     | _ => false
@@ -237,6 +238,7 @@ def applyCallable (lib : Lib) (f : Expr) (args : List Expr) (kwn : List String) 
     let kw := kwMerge pkwn pkwv kwn kwv
     .ok (.call t (pargs ++ args) (kw.map Prod.fst) (kw.map Prod.snd) [] [])
   | .pyfunc name => lib.pyfunc name args kwn kwv
+  | .objv cls as => lib.pyfunc ("call:" ++ cls) (as ++ args) kwn kwv      -- `obj(...)`: `__call__` / a bound method
   | v => match typeName v with
     | some tn => .err ⟨"TypeError", "'" ++ tn ++ "' object is not callable"⟩
     | Option.none => .unk
@@ -434,7 +436,9 @@ def applyOp (lib : Lib) (name : String) (vs : List Expr) : Out :=
   | "rand", [a, b] => .ok (if truthy b then a else b)
   | "or", [a, b] => .ok (if truthy a then a else b)
   | "ror", [a, b] => .ok (if truthy b then b else a)
+  | "getitem", [.objv cls as, k] => lib.pyfunc ("getitem:" ++ cls) (as ++ [k]) [] []     -- user `__getitem__`
   | "getitem", [c, k] => pyGetitem c k
+  | "getattr", [.objv cls as, f] => lib.pyfunc ("getattr:" ++ cls) (as ++ [f]) [] []
   | "getattr", [o, f] => pyGetattr lib o f
   | "call", [f, .cont .tuple args, .dict ks kvs] =>
     match strKeys ks with
@@ -602,7 +606,7 @@ def bind2 (xs ys : Outs) (k : List Expr → List Expr → Outs) : Outs :=
 def step (lib : Lib) (recC : Ctx → Expr → Outs) (c : Ctx) (e : Expr) : Outs :=
   match e with
   | .none | .bool _ | .int _ | .str _ | .errv _ | .cls _ | .pyfunc _ | .taskv _
-  | .partialv _ _ _ _ | .threadv _ => [.ok e]
+  | .partialv _ _ _ _ | .threadv _ | .objv _ _ => [.ok e]
   | .vexpr v => if isValue v then [.ok v] else [.unk]
   | .cont .list es => evalList (recC c) es
   | .cont k es => bindL (evalList (recC c) es) fun vs => if contOk k vs then [.ok (.cont k vs)] else [.unk]
